@@ -217,7 +217,12 @@ namespace Pistache::Rest
                 collection      = &optional_;
                 break;
             case SegmentType::Splat:
-                return splat_->removeRoute(lower_path);
+                if (splat_ == nullptr)
+                    throw std::runtime_error("Requested does not exist.");
+                if (splat_->removeRoute(lower_path))
+                    splat_.reset();
+                // this node stays for as long as anything else hangs below it
+                return fixed_.empty() && param_.empty() && optional_.empty() && splat_ == nullptr && route_ == nullptr;
             }
 
             try
